@@ -7,6 +7,7 @@
 -/
 import KiraModel.Model.Easing
 import KiraModel.Model.ClockTime
+import KiraModel.Model.Geom
 
 namespace K
 
@@ -30,8 +31,11 @@ structure Info (α : Type) where
   modulator : Nat → Option α
   /-- `Info::listener_distance` (an `f32` value) -/
   listenerDistance : Option α
+  /-- the listener arena behind `Info::listener_info` (`listeners.get(id)` as a `ListenerInfo`); which
+      listener is "the" listener of the current spatial track is decided by the track (Model/System.lean) -/
+  listener : Nat → Option (ListenerInfo α) := fun _ => none
 
-def Info.empty : Info α := ⟨fun _ => none, fun _ => none, none⟩
+def Info.empty : Info α := ⟨fun _ => none, fun _ => none, none, fun _ => none⟩
 
 /-- mirrors: info.rs::WhenToStart -/
 inductive WhenToStart where
